@@ -652,3 +652,53 @@ func (a *App) PolicyAt(t *Cmd) flag.ErrorHandling {
 	}
 	return a.PolicyAt(t.Parent)
 }
+
+// CompileSequence runs ONE application object through a sequence of specs: before each Run the Spec field is replaced.
+// declMask as in CompileSpec; with version the app declares a version flag and every Run is given "-V" as first argument.
+func CompileSequence(specs []string, declMask int, version bool) (outs []SpecOutcome) {
+	cli.VerifSetStdErr(io.Discard)
+	app := cli.App("app", "")
+	app.ErrorHandling = flag.ContinueOnError
+	var events *[]string
+	ev := func(n string) func() { return func() { *events = append(*events, n) } }
+	if version {
+		app.Version("V version", "1.0")
+	}
+	if declMask&1 != 0 {
+		app.BoolOpt("a aa", false, "")
+	}
+	if declMask&2 != 0 {
+		app.StringOpt("o out", "", "")
+	}
+	if declMask&4 != 0 {
+		app.StringsArg("X", nil, "")
+	}
+	if declMask&8 != 0 {
+		app.StringsArg("Y", nil, "")
+	}
+	app.Before, app.Action, app.After = ev("B"), ev("ACT"), ev("A")
+	for _, spec := range specs {
+		var out SpecOutcome
+		events = &out.Events
+		func() {
+			defer func() {
+				if v := recover(); v != nil {
+					if pos, in, ok := cli.VerifParseErrorPos(v); ok {
+						out.SpecErr = &SpecErr{Pos: pos, Input: in, Text: fmt.Sprint(v)}
+						return
+					}
+					out.Pan = v
+				}
+			}()
+			app.Spec = spec
+			argv := []string{"app"}
+			if version {
+				argv = append(argv, "-V")
+			}
+			app.Run(argv)
+			out.OK = true
+		}()
+		outs = append(outs, out)
+	}
+	return outs
+}
